@@ -18,6 +18,16 @@ checks = {
    technique="exhaustive enumeration of point lists (length 1 full product, all ordered pairs and triples over reduced alphabets) through Decode/MergePoints/MergeEdgePoints for every field kind and prior value, with recover() as crash oracle and a differential oracle for undeclared types",
    text="Every point list up to the stated length over an alphabet of hostile keys, values (NaN, Inf, 2^63, 2^64), tombstone counts (negative, odd, even) is decoded into every supported field kind, zero and populated; a panic, a change caused by undeclared types, or a result that differs from the result without the undeclared points is a violation.",
    note="Alphabets chosen around the shortcuts in decode.go (index parsing, KeyMaxInt, tombstone parity, overflow checks)."),
+ "C12": dict(
+   category="exploration", design_ref="DESIGN.md §3 C12",
+   technique="exhaustive enumeration: full cross product of per-field boundary alphabets through the real protobuf codecs (round trip), and all short byte strings / wire-aware strings / every truncation and single-byte substitution of valid encodings through every decoder (totality)",
+   text="Round trip compares every field (value bit-wise, time to the ns, data) of every point of the product alphabet and of nodes with 0..2 points and edge points through all encode/decode pairs. Totality feeds all byte strings up to length 2 (thorough 3), all strings up to length 4 (5) over the declared tags/wire types, and all truncations and single-byte substitutions of 8 valid encodings to 13 decoders under recover().",
+   note="internal/pb cannot be imported from outside the module, so reply messages (NodeRequest/NodesRequest) are assembled with protowire exactly as proto.Marshal lays them out; strings are valid UTF-8."),
+ "C17": dict(
+   category="exploration", design_ref="DESIGN.md §3 C17",
+   technique="exhaustive enumeration of all 1-bit, 2-bit and <=16-bit burst error patterns at all positions (both bit orders) on real SerialEncode output, decided by the real SerialDecode; full product round trip over seq x subject x point lists",
+   text="Every error pattern of the stated classes is applied to packets of every documented subject form and decoded by the real code: an accepted packet with different content is a violation. The only undetected patterns are the six p.<c> subjects within a 16-bit burst of 'log' (known findings); any other escape is reported.",
+   note="Representative packets (payload 0..2 points) rather than all payloads: CRC detection of bursts <=16 is independent of content, the log bypass depends only on the subject, and all printable p.<c> subjects are enumerated in thorough."),
 }
 pending_reason = "check not built yet in this round (planned in DESIGN.md §3); not claimed until its harness exists"
 m = {
